@@ -355,6 +355,9 @@ class TestGen:
             self.lines.append((1, ".const k = %d" % rng.randrange(0, 256)))
             self.consts.append(((), "k", int(self.lines[-1][1].split("=")[1])))
         self.slot(p=0.5)
+        if rng.random() < 0.15:
+            self.emit("ldx #$%02x" % rng.randrange(0xE0, 0x100), "load")
+            self.emit("txs", "transfer")
         # pointers for (zp),y and (zp,x)
         d0 = self.data_labels[0]
         self.emit("lda #<%s" % d0, "load")
@@ -508,6 +511,9 @@ def templates(rng, st, consts_in_scope, labels, prev_text):
     for name, val in consts_in_scope:
         c.append(("%s == %d" % (name, val), None))
         c.append(("%s + cpu.a == %d" % (name, val + a), None))
+        if "." in name:
+            c.append(("%s == %d" % (name, val), None))
+            c.append(("%s != %d" % (name, val), None))
     c.append(("defined(nosuchsymbol)", 0))
     c.append(("nosuchsymbol == 1", 0))          # cannot be evaluated: fails
     c.append(("defined(cpu.a)", 1))
@@ -563,6 +569,15 @@ def choose_inserts(rng, prj, t, sym, steps):
                 if list(sc) == scope[:k] and name not in seen:
                     seen.add(name)
                     cons.append((name, val))
+        # references through `super` and through a scope's name
+        for sc, name, val in g.consts:
+            sc = list(sc)
+            if scope and sc == scope[:-1]:
+                cons.append(("super." + name, val))
+            if sc and sc[-1] is not None and sc[:-1] == scope[:len(sc) - 1] and sc != scope[:len(sc)]:
+                cons.append((sc[-1] + "." + name, val))
+            if sc and sc[-1] is not None and sc == scope[:len(sc)]:
+                cons.append((sc[-1] + "." + name, val))
         items = []
         n_here = rng.choice([1, 1, 1, 2, 3]) if remaining > 0 else 0
         for _ in range(n_here):
@@ -705,7 +720,7 @@ def run(chk):
     mos = common.build_mos()
     hook = Proc([mos, "verif-probe"], timeout=60)
     thorough = chk.tier == "thorough"
-    n = 400 if thorough else 60
+    n = 1500 if thorough else 150
     workdir = os.path.join(common.CACHE, "work")
     os.makedirs(workdir, exist_ok=True)
     dist = {"projects": 0, "tests": 0, "passed": 0, "failed": 0, "instr_kinds": {}, "assert_true": 0, "assert_false": 0,
